@@ -125,7 +125,9 @@ def run(ctx):
             for cut in (0, 1, 2):
                 todo.append((name, hkl, cut))
     if quick:
-        idx = rng.permutation(len(todo))[:120]
+        idx = set(int(i) for i in rng.permutation(len(todo))[:120])
+        # the cells with a non-zero origin always meet the planes whose oriented vectors are the identity or a relabelling of the axes
+        idx |= {i for i, (nm, hk, ct) in enumerate(todo) if nm in ('ortO', 'monoO') and sorted(map(abs, hk)) == [0, 0, 1]}
         todo = [todo[i] for i in sorted(idx)]
     for name, hkl, cut in todo:
         ucell, basis, dd = ucells[name]
